@@ -255,6 +255,28 @@ pub fn cases(tier: &str, seed: u64) -> Vec<Case> {
         if total > 4000 { c.proj = Proj::None; c.op = String::new(); }
         v.push(c);
     }
+    // many small records of one kind at growing offsets: a per-record cost that depends on the record's
+    // position in the message (a buffer sized from the message prefix, a rescan from the start) makes
+    // heap or time quadratic although every single record is cheap
+    for kind in 0..crate::gen::N_KINDS {
+        let r = g.rr_of(kind);
+        if matches!(r.rdata, rdata::RData::OPT(_)) { continue; }
+        let mut one = Packet::new_reply(0);
+        one.answers.push(r.clone());
+        let per = match one.build_bytes_vec() { Ok(b) => b.len() - 12, Err(_) => continue };
+        if per > 120 { continue; }
+        let target = if thorough { 64000 } else { 22000 };
+        let mut p = Packet::new_reply(kind as u16);
+        p.answers = vec![r; (target / per.max(1)).min(65535)];
+        if let Ok(b) = p.build_bytes_vec() {
+            if b.len() <= 65535 {
+                let mut c = parse_case(&b, "many-records");
+                // the list-based model is slow on tens of kilobytes: compare every fourth kind with it, all with the budgets
+                if kind % 4 != 0 { c.proj = Proj::None; c.op = String::new(); }
+                v.push(c);
+            }
+        }
+    }
     // random bytes and random mutations of bigger packets
     let n = if thorough { 60_000 } else { 3_000 };
     for i in 0..n {
